@@ -181,6 +181,35 @@ fn gen_setup(rng: &mut Rng, cl: Class, n: u32, sparse_alive: bool, dense_only: b
             s.raised.push(e);
         }
     }
+    // pending deletions (a third of the worlds): `Entities::delete` was called on 1..20% of the alive entities
+    // and no `maintain()` has run yet. Boundary indices included; sometimes biased towards the raised entities
+    // (created and deleted atomically in the same frame).
+    if nn > 0 && rng.chance(1, 3) {
+        let pct = rng.range(1, 20);
+        let mut sel = vec![false; nn];
+        fill_prob(rng, &mut sel, pct, 100, scale);
+        for &b in &[64usize, 128, 4096, 8192, 262144] {
+            if b >= nn { continue; }
+            match rng.below(4) {
+                0 => { sel[b - 1] = true; sel[b] = true; }
+                1 => { let lo = b - (rng.range(1, 5) as usize).min(b); let hi = (b + rng.below(5) as usize).min(nn - 1); for i in lo..=hi { sel[i] = true; } }
+                2 => { if rng.chance(1, 2) { sel[b - 1] = true; sel[b] = false; } else { sel[b - 1] = false; sel[b] = true; } }
+                _ => {}
+            }
+        }
+        if !s.raised.is_empty() {
+            match rng.below(3) {
+                0 => { for &(i, _) in &s.raised { if rng.chance(1, 2) { sel[i as usize] = true; } } }
+                1 => { for &(i, _) in &s.raised { sel[i as usize] = false; } }
+                _ => {}
+            }
+        }
+        for e in s.ents.iter() { if sel[e.0 as usize] { s.killed.push(*e); } }
+        if s.killed.is_empty() {
+            let e = s.ents[rng.below(s.ents.len() as u64) as usize];
+            s.killed.push(e);
+        }
+    }
     // stores
     let mut prev: Vec<Vec<bool>> = Vec::new();
     for k in 0..16 {
@@ -269,6 +298,8 @@ fn gen_op(rng: &mut Rng, cl: Class, n: u32, s: &Setup, gens: &[i32], h3: bool) -
         if cl == Class::Raw && sh.has_bits() { w *= 6; }
         // worlds with raised entities: favour the shapes that join over `&entities`
         if !s.raised.is_empty() && sh.members.split(' ').any(|m| m.trim_start_matches('?') == "e") { w *= 3; }
+        // worlds with pending deletions: favour `&entities` and restricted members
+        if !s.killed.is_empty() && sh.members.split(' ').any(|m| { let m = m.trim_start_matches('?'); m == "e" || m.starts_with('r') || m.starts_with('w') }) { w *= 3; }
         w
     }).collect();
     let sh = &SHAPES[rng.weighted(&ws)];
@@ -401,6 +432,8 @@ fn trees_main(seed: u64, cases: usize, out: &mut String) {
             let sh = par_shapes[rng.below(par_shapes.len() as u64) as usize];
             // worlds with raised entities: the first two shapes join over `&entities`
             if !setup.raised.is_empty() && chosen.len() < 2 && !has_e(sh) { continue; }
+            // worlds with pending deletions: the first shape joins over `&entities` or a restricted storage
+            if !setup.killed.is_empty() && chosen.is_empty() && !(has_e(sh) || sh.members.split(' ').any(|m| m.starts_with('r') || m.starts_with('w'))) { continue; }
             if !chosen.iter().any(|c| c.sid == sh.sid) { chosen.push(sh); }
         }
         for sh in chosen {
